@@ -61,6 +61,37 @@ theorem firstErr_error_iff (gs : List (Option String)) (t : String) :
           have := hp a (List.mem_cons_self)
           rw [← h.1] at this; cases this
 
+/-- whatever the order of the guards: the error returned is the tag of a guard that fires -/
+theorem firstErr_error_mem (gs : List (Option String)) (t : String) (h : firstErr gs = .error t) : some t ∈ gs := by
+  obtain ⟨pre, post, rfl, _⟩ := (firstErr_error_iff gs t).mp h
+  simp
+
+/-- a chain with a firing guard returns an error -/
+theorem firstErr_error_of_mem (gs : List (Option String)) (t : String) (h : some t ∈ gs) : ∃ u, firstErr gs = .error u := by
+  cases hf : firstErr gs with
+  | error u => exact ⟨u, rfl⟩
+  | ok _ =>
+    have := (firstErr_ok_iff gs).mp hf (some t) h
+    cases this
+
+/-! ### the setter model of `SvmParams` -/
+
+/-- setters that assign the weights (`c` / `nu`); `.eps` only touches the solver tolerance -/
+def SvmSet.isWeight {α : Type} : SvmSet α → Bool
+  | .eps _ => false
+  | _ => true
+
+theorem svmApply_exactly_one {α : Type} (k : SvmConsts α) (s : SvmState α) (op : SvmSet α)
+    (h : s.c.isSome = !s.nu.isSome) : (op.apply k s).c.isSome = !(op.apply k s).nu.isSome := by
+  cases op <;> simp [SvmSet.apply, h]
+
+theorem svmFold_exactly_one {α : Type} (k : SvmConsts α) (ops : List (SvmSet α)) (s : SvmState α)
+    (h : s.c.isSome = !s.nu.isSome) :
+    (ops.foldl (SvmSet.apply k) s).c.isSome = !(ops.foldl (SvmSet.apply k) s).nu.isSome := by
+  induction ops generalizing s with
+  | nil => simpa using h
+  | cons op rest ih => exact ih _ (svmApply_exactly_one k s op h)
+
 namespace XF
 variable (q : Rat)
 
